@@ -42,3 +42,33 @@ package ext
 //@   ensures[C02] 0 <= result1 && result1 <= len(b) && result1 <= 9
 //@   ensures[!C02] n < 0 ==> result1 == 0 && result0 == 0
 //@   ensures[!C02] n >= 1 ==> result1 == n && result0 == unzigzag(varintVal(mem(b), hi(b), n))
+
+// ---- encoders: the n bytes ending at the end of b are the canonical varint; nothing else changes
+
+//@ func PutReverseUint32
+//@   safety[C08]
+//@   requires len(b) >= 5
+//@   modifies uint8 at b
+//@   ensures result == uvarintLen(v) && isUvarint(mem(b), hi(b) - result, result, v)
+//@   ensures forall j :: (j < hi(b) - result || j >= hi(b)) ==> mem(b)[j] == old(mem(b))[j]
+
+//@ func PutReverseUint64
+//@   safety[C08]
+//@   requires len(b) >= 9
+//@   modifies uint8 at b
+//@   ensures result == uvarintLen(v) && isUvarint(mem(b), hi(b) - result, result, v)
+//@   ensures forall j :: (j < hi(b) - result || j >= hi(b)) ==> mem(b)[j] == old(mem(b))[j]
+
+//@ func PutReverseInt32
+//@   safety[C08]
+//@   requires len(buf) >= 5
+//@   modifies uint8 at buf
+//@   ensures result == uvarintLen(zigzag(x)) && isUvarint(mem(buf), hi(buf) - result, result, zigzag(x))
+//@   ensures forall j :: (j < hi(buf) - result || j >= hi(buf)) ==> mem(buf)[j] == old(mem(buf))[j]
+
+//@ func PutReverseInt64
+//@   safety[C08]
+//@   requires len(buf) >= 9
+//@   modifies uint8 at buf
+//@   ensures result == uvarintLen(zigzag(x)) && isUvarint(mem(buf), hi(buf) - result, result, zigzag(x))
+//@   ensures forall j :: (j < hi(buf) - result || j >= hi(buf)) ==> mem(buf)[j] == old(mem(buf))[j]
